@@ -473,6 +473,7 @@ def gen_complex_case(rng):
     ret = list(sts)
     rng.shuffle(ret)
     return {"sim": "Gillespie_complex_contagion", "graph": spec, "model": model, "params": params,
+            "infl_kind": rng.choice(["list", "iterator", "generator", "tuple", "set", "dictkeys"]),
             "IC": IC, "ret": ret, "tmin": rng.choice([0, 0, 5, -2.5]),
             "tmax": rng.choice([None, float("inf"), float("inf"), 1e9])}
 
@@ -485,7 +486,22 @@ class ComplexAdapter(object):
         self.G, self.labels = cases.build_graph(case["graph"])
         self.n = len(self.labels)
         self.params = tuple(case["params"])
-        self.rate, self.choose, self.infl, self.statuses = make_complex_model(case["model"], self.params)
+        self.rate, self.choose, infl_list, self.statuses = make_complex_model(case["model"], self.params)
+        kind = case.get("infl_kind", "list")
+        # F7: the influence set may legally be any iterable - a list, a one-shot
+        # iterator (the docstring's own G.neighbors(node)), a generator, a set ...
+        if kind == "iterator":
+            self.infl = lambda G, node, status, parameters: iter(infl_list(G, node, status, parameters))
+        elif kind == "generator":
+            self.infl = lambda G, node, status, parameters: (x for x in infl_list(G, node, status, parameters))
+        elif kind == "tuple":
+            self.infl = lambda G, node, status, parameters: tuple(infl_list(G, node, status, parameters))
+        elif kind == "set":
+            self.infl = lambda G, node, status, parameters: set(infl_list(G, node, status, parameters))
+        elif kind == "dictkeys":
+            self.infl = lambda G, node, status, parameters: dict.fromkeys(infl_list(G, node, status, parameters)).keys()
+        else:
+            self.infl = infl_list
         self.ref = ComplexRef(self.G, self.labels, self.rate, self.choose, self.params)
         self.init_state = tuple(case["IC"])
         self.case_digest = case_digest(case)
